@@ -115,6 +115,15 @@ fn field(r: usize, k: usize) -> usize {
 pub fn satb_mode<const V: u32>(d: &mut Driver<V>, p: &Params, programs: u64, ops: u64, heap_mb: usize) {
     JITTER.store(seed_from_env().wrapping_mul(0x2545_F491_4F6C_DD1D) | 1, Ordering::Relaxed);
     install_gate::<V>();
+    // one root packet per bound mutator (+ one for the VM roots): with all four mutators bound and
+    // up to four workers the Concurrent bucket is never drained while the marker is held
+    if !flag("noextramut") {
+        for m in p.nmut..MAX_MUTATORS {
+            if with_world(|w| w.mutators[m].ptr == 0) {
+                bind::<V>(m);
+            }
+        }
+    }
     for pi in 0..programs {
         satb_program::<V>(d, p, pi, ops, heap_mb);
     }
@@ -169,6 +178,31 @@ fn satb_program<const V: u32>(d: &mut Driver<V>, p: &Params, pi: u64, nops: u64,
             d.set_root(s.m, TMP, 0);
         }
     }
+    // ---- several complete concurrent cycles within one program: objects allocated while marking is
+    // in progress (large ones in particular) stay reachable over the following cycles ---------------
+    let rounds = arg_u64("rounds", 4);
+    for round in 0..rounds {
+        satb_round::<V>(d, p, &scen, nmut, round, nops, heap_mb);
+    }
+    d.gc(0, true);
+    finish_cycle::<V>(d);
+}
+
+/// Large object (Los semantics, 8 KB .. ~300 KB) with a few reference fields.
+fn alloc_large<const V: u32>(d: &mut Driver<V>, m: usize, slot: usize) -> usize {
+    let words = match d.rng.below(4) {
+        0 => d.rng.range(1024, 2048),
+        1 => d.rng.range(2048, 8192),
+        2 => d.rng.range(8192, 20000),
+        _ => d.rng.range(20000, 40000),
+    };
+    let nf = d.rng.range(2, 4) as usize;
+    gen_alloc::<V>(d, m, slot, 2, 8 * words as usize, nf)
+}
+
+#[allow(clippy::too_many_arguments)]
+fn satb_round<const V: u32>(d: &mut Driver<V>, p: &Params, scen: &[Scen], nmut: usize, round: u64, nops: u64, heap_mb: usize) {
+    let use_los = p.sems.contains(&2);
     // ---- allocate until MMTk starts a concurrent collection; hold the marker at its first packet --
     GATE_LIMIT_US.store(100_000 + 1000 * d.rng.below(200), Ordering::Relaxed);
     GATE_CLOSED.store(true, Ordering::Release);
@@ -180,7 +214,32 @@ fn satb_program<const V: u32>(d: &mut Driver<V>, p: &Params, pi: u64, nops: u64,
         quiet_filler::<V>(d, 0, size);
         filled += size;
     }
-    ev(Obj::new("MarkingStarted").bool("marking", marking::<V>()).int("filledKB", (filled >> 10) as i64));
+    ev(Obj::new("MarkingStarted")
+        .int("round", round as i64)
+        .bool("marking", marking::<V>())
+        .int("filledKB", (filled >> 10) as i64));
+    // ---- large objects allocated while the marker is held: one kept in a root of its own for the
+    // rest of the program, one published only through the old graph. (Their allocation polls for a
+    // GC; the Concurrent bucket still holds root packets as long as there are more root packets -
+    // one per bound mutator + one - than workers, so the poll does not end the cycle.)
+    if use_los {
+        let keep = TMP + 10 + (round % 4) as usize;
+        alloc_large::<V>(d, 0, keep);
+        ev(Obj::new("LargeDuringMarking").int("round", round as i64).bool("marking", marking::<V>()));
+        let s = &scen[d.rng.below(scen.len() as u64) as usize];
+        if root::<V>(s) != 0 && d.rng.chance(2, 3) {
+            let n = alloc_large::<V>(d, s.m, TMP);
+            let a = root::<V>(s);
+            if n != 0 && a != 0 {
+                let k = d.rng.below(hdr_of_ref(a).nfields as u64) as usize;
+                // keep what the field held reachable through the new large object
+                let oldv = field(a, k);
+                gen_write::<V>(d, s.m, n, 0, oldv);
+                gen_write::<V>(d, s.m, a, k, n);
+            }
+            d.set_root(s.m, TMP, 0);
+        }
+    }
     // ---- batch 1 (marker held) and batch 2 (marker running): hiding patterns -----------------------
     for i in 0..nops {
         if i == nops / 2 {
@@ -196,7 +255,7 @@ fn satb_program<const V: u32>(d: &mut Driver<V>, p: &Params, pi: u64, nops: u64,
         let k = d.rng.below(nf as u64) as usize;
         let t = TMP + 2 + d.rng.below(8) as usize; // where hidden references are parked
         let wm = d.rng.below(nmut as u64) as usize;
-        match d.rng.below(8) {
+        match d.rng.below(9) {
             0 | 1 => {
                 // H1: root := A.f[k]; A.f[k] := null
                 d.load_field(s.m, s.slot, k, s.m, t);
@@ -246,10 +305,9 @@ fn satb_program<const V: u32>(d: &mut Driver<V>, p: &Params, pi: u64, nops: u64,
             5 => {
                 // H6: publish an object allocated during marking only through an old object
                 let sz = HDR_BYTES + 8 + 8 * d.rng.below(40) as usize;
-                // (large objects only once the marker runs: their allocation polls for a GC, and with
-                // the marker held the drained Concurrent bucket would end the cycle at once)
-                let big = i >= nops / 2 && d.rng.chance(1, 8);
-                let n = gen_alloc::<V>(d, s.m, TMP, if big { 2 } else { 0 }, if big { 8192 + sz } else { sz }, 1);
+                // (large objects mostly once the marker runs: see above)
+                let big = use_los && d.rng.chance(1, if i >= nops / 2 { 4 } else { 12 });
+                let n = if big { alloc_large::<V>(d, s.m, TMP) } else { gen_alloc::<V>(d, s.m, TMP, 0, sz, 1) };
                 if n != 0 {
                     let a = root::<V>(s);
                     gen_write::<V>(d, wm, a, k, n);
@@ -269,9 +327,20 @@ fn satb_program<const V: u32>(d: &mut Driver<V>, p: &Params, pi: u64, nops: u64,
                 d.load_field(s2.m, s2.slot, 0, s.m, t);
                 region_copy::<V>(d, wm, a, 0, a2, 0, n);
             }
+            7 => {
+                // H8: hang a parked reference under one of the large objects allocated during marking
+                let keep = TMP + 10 + d.rng.below(4) as usize;
+                let l = Driver::<V>::root_get(0, keep);
+                if l == 0 {
+                    continue;
+                }
+                let kk = d.rng.below(hdr_of_ref(l).nfields as u64) as usize;
+                let v = Driver::<V>::root_get(s.m, t);
+                gen_write::<V>(d, wm, l, kk, v);
+            }
             _ => {
-                // drop a parked reference, or a whole scenario
-                if d.rng.chance(3, 4) {
+                // drop a parked reference, or (rarely) a whole scenario
+                if d.rng.chance(7, 8) {
                     d.set_root(s.m, t, 0);
                 } else {
                     d.set_root(s.m, s.slot, 0);
@@ -284,13 +353,13 @@ fn satb_program<const V: u32>(d: &mut Driver<V>, p: &Params, pi: u64, nops: u64,
     }
     GATE_CLOSED.store(false, Ordering::Release);
     ev(Obj::new("MutationsDone").bool("marking", marking::<V>()));
-    // ---- let the collection finish (FinalMark), then churn and re-walk ---------------------------
+    // ---- let the collection finish (FinalMark), then churn so that anything reclaimed is reused ----
     finish_cycle::<V>(d);
-    let churn = d.rng.range(100, 250);
+    let churn = d.rng.range(40, 110);
     for _ in 0..churn {
         safepoint();
-        let size = match d.rng.below(10) {
-            0 => 8 * d.rng.range(1024, 2500) as usize,
+        let size = match d.rng.below(12) {
+            0 if use_los => 8 * d.rng.range(1024, 30000) as usize,
             1..=3 => 8 * d.rng.range(40, 400) as usize,
             _ => HDR_BYTES + 8 * d.rng.below(70) as usize,
         };
@@ -298,7 +367,4 @@ fn satb_program<const V: u32>(d: &mut Driver<V>, p: &Params, pi: u64, nops: u64,
         d.new_object(0, TMP + 14, sem, size, 0, 8, 0, KIND_PLAIN);
     }
     d.set_root(0, TMP + 14, 0);
-    finish_cycle::<V>(d);
-    d.gc(0, true);
-    finish_cycle::<V>(d);
 }
